@@ -25,7 +25,11 @@ theorem render_eq_subst (amb : Ambient) : ∀ (ps : List Piece) (as : List Arg) 
 
 /-- what one `ERRORset_warning` call does to entry `j`, as a function of the old value -/
 def newOverride (name : String) (b : Bool) (j : Nat) (old : Bool) : Bool :=
-  if severityOf j ≤ LibErrors.SEVERITY_WARNING ∧ classOf j = some name then b else old
+  if switchable j = true ∧ classOf j = some name then b else old
+
+/-- with the severity test in place only warnings are switchable (regenerated constant) -/
+theorem switchable_le {j : Nat} (h : switchable j = true) : severityOf j ≤ LibErrors.SEVERITY_WARNING := by
+  simpa [switchable, LibErrors.setWarningSeverityGuard] using h
 
 /-- pointwise description of a successful loop over indices `i .. i+n-1` -/
 theorem setWarningLoop_apply (guard : Bool) (name : String) (b : Bool) :
@@ -81,7 +85,7 @@ theorem setWarningLoop_shape (guard : Bool) (name : String) (b b' : Bool) :
   | 0, i, ov1, ov2, found => by simp [setWarningLoop, sameShape]
   | n + 1, i, ov1, ov2, found => by
     simp only [setWarningLoop]
-    by_cases hs : severityOf i ≤ LibErrors.SEVERITY_WARNING
+    by_cases hs : switchable i = true
     · simp only [hs, if_true]
       cases hc : classOf i with
       | none =>
@@ -128,11 +132,11 @@ theorem diffOnly_setWarning (guard : Bool) (X name : String) (b₁ b₂ : Bool) 
   by_cases hr : 0 ≤ j ∧ j < 0 + LibErrors.tableSize
   · simp only [hr, and_self, if_true] at hj
     unfold newOverride at hj
-    by_cases hc : severityOf j ≤ LibErrors.SEVERITY_WARNING ∧ classOf j = some name
+    by_cases hc : switchable j = true ∧ classOf j = some name
     · simp only [hc, and_self, if_true] at hj
       rcases hb with hb | hb
       · exact absurd hb hj
-      · exact ⟨hb ▸ hc.2, hc.1⟩
+      · exact ⟨hb ▸ hc.2, switchable_le hc.1⟩
     · simp only [hc, if_false] at hj
       exact h j hj
   · simp only [hr, if_false] at hj
